@@ -51,6 +51,8 @@ def _replay_group(ck, sw, name, runs, seed=None, parallel=4, bases=None):
                                   "behaviour": json.loads(vlib.nth_line(beh, sid - bases[k])) if beh else None,
                                   "trace": vlib.read_scenario(whole, sid)})
     os.remove(whole)
+    if any((sm.get("notes") or {}).get("stopped_after_huge_reserve") for sm in summs) and not bads:
+        raise vlib.Inconclusive("the driver stopped after the decoder reserved gigabytes, but the monitor rejected nothing")
     return bads
 
 
